@@ -321,9 +321,41 @@ def run(tier, seed):
                 if num_v in got:
                     rep.violation(rid, "type 0x%02x registered once" % num_v, "ext_header.c", "duplicate", function="ext_header_types", obj="dup%02x" % num_v)
                 got[num_v] = (decn, const_val(ml))
-            for t in sorted(set(REG) | set(got)):
+            for t in sorted(REG):
                 rep.check(rid, got.get(t) == REG.get(t), "type 0x%02x -> %s" % (t, REG.get(t)), "ext_header.c", "registry has %s" % (got.get(t),), function="ext_header_types",
                           obj="type%02x" % t)
+            # a type beyond the ten reference ones is compatible with the property as long as its decoder leaves every field of the
+            # reference header alone (it may fill fields the reference header does not have, and set new bits in extra_flags)
+            import json as _json, os as _os
+            from ..callgraph import CallGraph
+            ref_fields = {f_[0] for f_ in _json.load(open(_os.path.join(_os.path.dirname(_os.path.dirname(_os.path.abspath(__file__))), "known_types.json"))).get("%struct._LHAFileHeader", [])}
+            cg3 = None
+            for t in sorted(set(got) - set(REG)):
+                decn, ml = got[t]
+                dfn = mod.fn(decn)
+                if dfn is None or not ref_fields:
+                    rep.violation(rid, "type 0x%02x -> not a reference type" % t, "ext_header.c", "registry has %s, whose decoder cannot be examined" % (got[t],), function="ext_header_types", obj="type%02x" % t)
+                    continue
+                cg3 = cg3 or CallGraph(mod)
+                touched = []
+                for gname in sorted(cg3.reachable([dfn.name])):
+                    g = mod.functions.get(gname)
+                    if g is None or g.decl:
+                        continue
+                    Mg = Matcher(g)
+                    for fld in sorted(ref_fields):
+                        for st in stores_to_field(mod, "LHAFileHeader", fld, [g]):
+                            if fld == "extra_flags":
+                                e_ = Mg.match(("bin", "or", ("load", ("field", "LHAFileHeader", "extra_flags", ANY)), ("bind", "bit", ("const",))), st.ops[0], {})
+                                if e_ is not None and is_const(e_["bit"]) and const_val(e_["bit"]) & 0x1f == 0:
+                                    continue
+                            touched.append("%s (in %s)" % (fld, g.cname))
+                rep.check(rid, not touched, "additional type 0x%02x (%s, min_len %d) leaves every reference field alone" % (t, decn, ml), "%s:%s" % (dfn.file, dfn.line),
+                          "its decoder writes %s: a header carrying this type is no longer returned with exactly its encoded reference fields" % sorted(set(touched)) if touched else None,
+                          function=decn, obj="extra%02x" % t)
+                if not touched:
+                    REG = dict(REG)
+                    REG[t] = (decn, ml)          # from here on a registered type like the others (dispatch below: reached iff data_len >= min_len)
         # dispatch: for every one of the 256 type bytes, which decoder lha_ext_header_decode hands the data to - decided by evaluating the
         # dispatcher over the (never written, R3/C15.R1) registry in the singleton domain, whatever shape the lookup has
         dsp = rep.need(rid, mod.fn("lha_ext_header_decode"), "function lha_ext_header_decode")
